@@ -138,6 +138,11 @@ pub enum DataClass {
     F16,
     LowEntropy,
     Periodic,
+    /// 8-byte records (3 arbitrary bytes + a byte with >= 4 bits set, twice), each stored twice in a row: the byte-grouping
+    /// predictor recommends grouping, grouping destroys the 8-byte repeats that plain LZ4 finds
+    DoubledRecords,
+    /// incompressible data whose every 4th byte has a skewed bit count: grouping is predicted and does not pay off
+    SkewedHigh,
 }
 
 pub const ALL_DATA_CLASSES: [DataClass; 8] = [
@@ -195,6 +200,22 @@ pub fn gen_data(rng: &mut Rng, class: DataClass, n: usize) -> Vec<u8> {
             let a = rng.next_u32() as u8;
             let b = rng.next_u32() as u8;
             (0..n).map(|_| if rng.chance(1, 16) { b } else { a }).collect()
+        },
+        DataClass::DoubledRecords | DataClass::SkewedHigh => {
+            let high: Vec<u8> = (0u16..256).map(|b| b as u8).filter(|b| b.count_ones() >= 4).collect();
+            let mut v = Vec::with_capacity(n + 16);
+            while v.len() < n {
+                let mut rec = [0u8; 8];
+                rng.fill(&mut rec);
+                rec[3] = *rng.pick(&high);
+                rec[7] = *rng.pick(&high);
+                v.extend_from_slice(&rec);
+                if class == DataClass::DoubledRecords {
+                    v.extend_from_slice(&rec);
+                }
+            }
+            v.truncate(n);
+            v
         },
         DataClass::Periodic => {
             let p = rng.urange(1, 130);
